@@ -112,7 +112,38 @@ def main(tier):
             t = apidoc.render(rd)[0]
             cases.append(rel.case(rid, t))
             rej[rid] = (nm, m, t)
+    # inherited properties reach the path variables too, also when the Path body is only the name of the inheriting type
+    pv = {}
+    base_t = 'TYPE @zbase\n{\n  "zb": 1\n}\nTYPE @zmid\n{ // {allOf: "@zbase"}\n  "zm": 1\n}\n'
+    for k, (pathdecl, want) in enumerate([
+            ('  Path\n    @zpk\n', [("zb", "@zbase"), ("zc", "")]),
+            ('  Path\n  { // {allOf: "@zbase"}\n    "zc": 1\n  }\n', [("zb", "@zbase"), ("zc", "")]),
+            ('  Path\n    @zpk3\n', [("zb", "@zmid"), ("zm", "@zmid"), ("zc", "")])]):   # marks name the base written in the allOf rule
+        types = base_t + 'TYPE @zpk\n{ // {allOf: "@zbase"}\n  "zc": 1\n}\nTYPE @zpk3\n{ // {allOf: "@zmid"}\n  "zc": 1\n}\n'
+        path = "/zpv/{zb}/{zc}" if k < 2 else "/zpv/{zb}/{zm}/{zc}"
+        text = "JSIGHT 0.3\n" + types + "URL %s\n%s  GET\n    200 any\n  POST\n    200 any\n" % (path, pathdecl)
+        cases.append(rel.case("pv%d" % k, text))
+        pv["pv%d" % k] = (text, path, want)
     obs = harness("run", cases)
+    for cid, (text, path, want) in pv.items():
+        o = obs[cid]
+        chk.evaluations += 1
+        chk.traces += 1
+        chk.nontrivial.add(text)
+        bad = None
+        if o["outcome"] != "ok":
+            bad = "Path declaration with inherited properties not accepted: %s" % rel.describe(o)
+        else:
+            cat = json.loads(o["json"])
+            for verb in ("GET", "POST"):
+                ch = cat["interactions"]["http %s %s" % (verb, path)].get("pathVariables", {}).get("schema", {}).get("content", {}).get("children", [])
+                got = sorted((c["key"], c.get("inheritedFrom", "")) for c in ch)
+                if got != sorted(want):
+                    bad = "path variables of %s %s: (key, inheritedFrom) = %s, the rule gives %s" % (verb, path, got, sorted(want))
+        if bad:
+            sig = {"what": "path variables inheritance"}
+            chk.violation("inherited properties differ from the rule: " + bad + " | document:\n" + text, {"kind": "allof_doc", "file": text, "doc": [], "expected": want,
+                                                                   "observed": o, "signature": sig}, sig)
     for cid, (m, text) in meta.items():
         o = obs[cid]
         chk.evaluations += 1
